@@ -327,7 +327,7 @@ func gen(seed int64, n int, tier string) []interface{} {
 		var decl []Callee
 		seen := map[string]bool{}
 		for len(decl) < nm {
-			c := Callee{Pkg: []string{"p", "q.r"}[r.Intn(2)], Node: fmt.Sprintf("C%d", r.Intn(ncls)), Name: fmt.Sprintf("m%d", r.Intn(nm*2))}
+			c := Callee{Pkg: []string{"p", "q.r", "p", ""}[r.Intn(4)], Node: fmt.Sprintf("C%d", r.Intn(ncls)), Name: fmt.Sprintf("m%d", r.Intn(nm*2))}
 			if quote && r.Intn(3) == 0 {
 				c.Name = c.Name + "\"x"
 			}
